@@ -84,7 +84,13 @@ def parsersEngine : Engine := fun inp obs =>
       | none =>
         -- the OID's JSON form must be a valid JSON string token whatever the bytes (C19)
         match parsersModel kind data with
-        | some m => if m == obs then .ok else .diff (joinTab m) "model differs from implementation"
+        | some m =>
+          if m == obs then .ok
+          else if kind == "tree" then
+            -- a tree is `(octal mode SP name NUL 20 bytes)*` and nothing else: the model's reading of that grammar is
+            -- the one `tree_roundtrip` is proved about, and git rejects what it rejects ("malformed mode in tree entry")
+            .viol "C16" s!"tree parser returns {obs} on bytes for which the tree grammar gives {m} (input {dh})"
+          else .diff (joinTab m) "model differs from implementation"
         | none => .bad "kind"
   | _ => .bad "arity"
 
